@@ -4,6 +4,7 @@ import (
 	"bufio"
 	"bytes"
 	"fmt"
+	"math"
 	"os"
 	"os/exec"
 	"path/filepath"
@@ -11,6 +12,7 @@ import (
 	"strconv"
 	"strings"
 	"sync"
+	"syscall"
 	"time"
 
 	minify "github.com/tdewolff/minify/v2"
@@ -33,6 +35,12 @@ var ladders = []ladder{
 	{"json arrays", "application/json", "", "[", "1", "]"}, {"json objects", "application/json", "", "{\"a\":", "1", "}"}, {"json list", "application/json", "[1", ",1000", "]", ""}, {"json string", "application/json", "\"", "ab\\n", "\"", ""},
 	{"css calc nesting", "text/css", "a{b:", "calc(", "1px", ")"}, {"css blocks", "text/css", "", "@media x{", "a{b:c}", "}"}, {"css rules", "text/css", "", "a{b:c}", "", ""}, {"css font commas", "text/css", "a{font:12px a", ",b", "}", ""}, {"css background layers", "text/css", "a{background:url(x)", ",url(y)", "}", ""},
 	{"css selectors", "text/css", "a", ",b", "{c:d}", ""}, {"css declarations", "text/css", "a{", "b:c;", "}", ""}, {"css url nesting", "text/css", "a{b:", "url(", "x", ")"}, {"css values", "text/css", "a{margin:0", " 1px", "}", ""}, {"css unicode-range", "text/css", "a{unicode-range:U+1", ",U+2", "}", ""},
+	// comma-separated value lists of every property with list handling of its own (each layer written so that the per-layer rewrite fires)
+	{"css box-shadow layers", "text/css", "a{box-shadow:1px 1px 0 0 red", ",1px 1px 0 0 red", "}", ""}, {"css text-shadow layers", "text/css", "a{text-shadow:1px 1px 0 red", ",1px 1px 0 red", "}", ""},
+	{"css transition list", "text/css", "a{transition:all 0s ease 0s", ",color 0.10s linear 0s", "}", ""}, {"css font-family list", "text/css", "a{font-family:\"A B\"", ",\"C D\"", "}", ""},
+	{"css background-position list", "text/css", "a{background-position:left top", ",right 10% bottom 20%", "}", ""}, {"css grid areas", "text/css", "a{grid-template-areas:\"a b\"", " \"c d\"", "}", ""},
+	{"css transform functions", "text/css", "a{transform:translate(0px,0px)", " rotate(0deg)", "}", ""}, {"css margin values", "text/css", "a{margin:0px", " 0px", "}", ""}, {"css important decls", "text/css", "a{", "b:c!important;", "}", ""},
+	{"css filter list", "text/css", "a{filter:blur(0px)", " drop-shadow(0 0 0 red)", "}", ""}, {"css will-change list", "text/css", "a{will-change:a", ",b", "}", ""},
 	{"svg path commands", "image/svg+xml", "<svg><path d=\"M0 0", "L1 1", "\"/></svg>", ""}, {"svg nested g", "image/svg+xml", "<svg>", "<g>", "", "</g>"}, {"svg attrs", "image/svg+xml", "<svg", " x=\"1\"", "/>", ""}, {"svg path numbers", "image/svg+xml", "<svg><path d=\"M0 0l", "1 ", "\"/></svg>", ""},
 	{"xml nested", "text/xml", "", "<a>", "x", "</a>"}, {"xml siblings", "text/xml", "<r>", "<a> b </a>", "</r>", ""}, {"xml cdata", "text/xml", "<r>", "<![CDATA[x]]>", "</r>", ""}, {"xml attrs", "text/xml", "<a", " b=\"c\"", "/>", ""},
 }
@@ -55,11 +63,31 @@ func measure(m *minify.M, typ string, in []byte) (alloc uint64, dur time.Duratio
 	runtime.GC()
 	runtime.ReadMemStats(&a)
 	t := time.Now()
+	c0 := cpuSeconds()
 	panicked = core.Recover(func() { m.Bytes(typ, in) })
+	lastCPU = cpuSeconds() - c0
 	dur = time.Since(t)
 	runtime.ReadMemStats(&b)
 	return b.TotalAlloc - a.TotalAlloc, dur, panicked
 }
+
+// lastCPU is the processor time (user+system, whole process) the last measure() call took.
+var lastCPU float64
+
+func cpuSeconds() float64 {
+	var ru syscall.Rusage
+	if syscall.Getrusage(syscall.RUSAGE_SELF, &ru) != nil {
+		return 0
+	}
+	return float64(ru.Utime.Sec+ru.Stime.Sec) + float64(ru.Utime.Usec+ru.Stime.Usec)/1e6
+}
+
+// Cost that hides inside memmove (splicing a slice in a loop, re-copying a growing buffer) is
+// executed by no Go code block and allocates nothing, so neither deterministic measure sees it.
+// For it there is a throughput floor with a wide margin: at the largest n a ladder input must be
+// processed at >= floorBytesPerSecond of PROCESSOR time (not wall time; the ladders run one at a
+// time), and at least floorMinSeconds are always granted. Linear code runs at 2-50 MB/s here.
+const floorBytesPerSecond, floorMinSeconds = 50e3, 4.0
 
 var ladderBin string
 
@@ -192,6 +220,11 @@ func runLadders(c *core.Check, track func(string, func())) {
 				break
 			}
 			rows = append(rows, row{n, alloc, float64(dur.Microseconds()) / 1000})
+			if budget := math.Max(floorMinSeconds, float64(len(in))/floorBytesPerSecond); lastCPU > budget {
+				c.Fail(core.Failure{Family: "ladders", Input: fmt.Sprintf("%s: %q + %q x n + %q + %q x n", l.name, l.pre, l.unit, l.suf, l.close), Config: fmt.Sprintf("%s n=%d", l.typ, n), Kind: "throughput-below-floor",
+					What: fmt.Sprintf("%d bytes took %.1f s of processor time (%.0f bytes/s; the floor is %.0f bytes/s and %.0f s): the time is not proportional to the input size", len(in), lastCPU, float64(len(in))/lastCPU, floorBytesPerSecond, floorMinSeconds)})
+				break
+			}
 		}
 		report[l.name] = rows
 		// growth: for the three largest doublings allocated bytes may at most triple (+ a constant)
